@@ -7,12 +7,16 @@ package c10
 import (
 	"encoding/json"
 	"fmt"
+	"net/http"
 	"os"
 	"path/filepath"
 	"sort"
+	"strings"
+	"sync"
 	"time"
 
 	"github.com/regclient/regclient"
+	"github.com/regclient/regclient/config"
 	"github.com/regclient/regclient/scheme/reg"
 	"github.com/regclient/regclient/types/ref"
 	"github.com/regclient/regclient/zz_verif/audit"
@@ -30,15 +34,60 @@ type Sys struct {
 	TagDelete    bool   `json:"tag_delete"`     // registry supports DELETE by tag
 	HeadNoDigest bool   `json:"head_no_digest"` // manifest HEAD without Docker-Content-Digest
 	Sha512Absent bool   `json:"sha512_absent"`  // the subject that does not exist has a sha512 digest
+	// dimensions added by the generator-domain audit (zero values = the original behaviour)
+	External      bool `json:"external,omitempty"`       // artifacts live in a separate repository / layout; lists use WithReferrerSource
+	LinkAbs       bool `json:"link_abs,omitempty"`       // reg-api paging: the Link header carries an absolute URL
+	CacheShort    bool `json:"cache_short,omitempty"`    // cache entries expire after 1ms (expiry / prune paths)
+	ReqConcurrent int  `json:"req_concurrent,omitempty"` // config.Host.ReqConcurrent of the client under test (0 = default)
 }
 
 type env struct {
-	sys  Sys
-	m    *rm.Model
-	h    *rm.Host
-	dir  string // layout directory
-	tmp  string
-	main *regclient.RegClient
+	sys    Sys
+	m      *rm.Model
+	h      *rm.Host
+	dir    string // layout directory of the subjects (base image, multi-platform index)
+	artDir string // layout directory the artifacts are pushed to (== dir unless External)
+	tmp    string
+	main   *regclient.RegClient
+	// arm: called (without the model lock) on every request arrival while set; used to cancel a context mid-operation
+	hookMu sync.Mutex
+	hook   func()
+}
+
+// artRepo is the repository artifacts are pushed to.
+func (e *env) artRepo() string {
+	if e.sys.External {
+		return extRepo
+	}
+	return repoName
+}
+
+// linkAbs rewrites a path-only Link target into an absolute URL (registries differ in which form they send).
+type linkAbs struct{ rt http.RoundTripper }
+
+func (l linkAbs) RoundTrip(req *http.Request) (*http.Response, error) {
+	resp, err := l.rt.RoundTrip(req)
+	if err == nil && resp != nil {
+		if v := resp.Header.Get("Link"); strings.HasPrefix(v, "</") {
+			resp.Header.Set("Link", "<"+req.URL.Scheme+"://"+req.URL.Host+v[1:])
+		}
+	}
+	return resp, err
+}
+
+func initLayout(dir string, blobs [][]byte, index string) error {
+	if err := os.MkdirAll(filepath.Join(dir, "blobs", "sha256"), 0o755); err != nil {
+		return err
+	}
+	if err := os.WriteFile(filepath.Join(dir, "oci-layout"), []byte(`{"imageLayoutVersion":"1.0.0"}`), 0o644); err != nil {
+		return err
+	}
+	for _, b := range blobs {
+		if err := writeBlobFile(dir, b); err != nil {
+			return err
+		}
+	}
+	return os.WriteFile(filepath.Join(dir, "index.json"), []byte(index), 0o644)
 }
 
 func (e *env) isReg() bool { return e.sys.Kind != "ocidir" }
@@ -53,6 +102,7 @@ func setup(sys Sys) (*env, error) {
 	e := &env{sys: sys}
 	blobs := [][]byte{baseConfig, baseLayer, emptyJSON}
 	blobs = append(blobs, payloads...)
+	refName := func(t string) string { return `,"annotations":{"org.opencontainers.image.ref.name":"` + t + `"}` }
 	if sys.Kind == "ocidir" {
 		tmp, err := os.MkdirTemp("", "c10")
 		if err != nil {
@@ -60,25 +110,32 @@ func setup(sys Sys) (*env, error) {
 		}
 		e.tmp = tmp
 		e.dir = filepath.Join(tmp, "layout")
-		if err := os.MkdirAll(filepath.Join(e.dir, "blobs", "sha256"), 0o755); err != nil {
+		e.artDir = e.dir
+		idx := fmt.Sprintf(`{"schemaVersion":2,"mediaType":%s,"manifests":[%s,%s,%s]}`, jstr(rm.MTOCIIndex),
+			descJSON(rm.MTOCIManifest, baseDigest, len(baseManifest), refName(baseTag)),
+			descJSON(rm.MTOCIManifest, baseDigest, len(baseManifest), refName(latestTag)),
+			descJSON(rm.MTOCIIndex, multiDigest, len(multiIndex), refName(multiTag)))
+		if err := initLayout(e.dir, append(append([][]byte{}, blobs...), baseManifest, armManifest, multiIndex), idx); err != nil {
 			return nil, err
 		}
-		if err := os.WriteFile(filepath.Join(e.dir, "oci-layout"), []byte(`{"imageLayoutVersion":"1.0.0"}`), 0o644); err != nil {
-			return nil, err
-		}
-		for _, b := range append(blobs, baseManifest) {
-			if err := writeBlobFile(e.dir, b); err != nil {
+		if sys.External {
+			e.artDir = filepath.Join(tmp, "refs")
+			empty := fmt.Sprintf(`{"schemaVersion":2,"mediaType":%s,"manifests":[]}`, jstr(rm.MTOCIIndex))
+			if err := initLayout(e.artDir, blobs, empty); err != nil {
 				return nil, err
 			}
-		}
-		idx := fmt.Sprintf(`{"schemaVersion":2,"mediaType":%s,"manifests":[%s]}`, jstr(rm.MTOCIIndex),
-			descJSON(rm.MTOCIManifest, baseDigest, len(baseManifest), `,"annotations":{"org.opencontainers.image.ref.name":"`+baseTag+`"}`))
-		if err := os.WriteFile(filepath.Join(e.dir, "index.json"), []byte(idx), 0o644); err != nil {
-			return nil, err
 		}
 	} else {
 		e.m = rm.New()
 		e.m.Cap = 40000
+		e.m.OnArrive = func(*rm.Entry) {
+			e.hookMu.Lock()
+			f := e.hook
+			e.hookMu.Unlock()
+			if f != nil {
+				f()
+			}
+		}
 		e.h = e.m.AddHost(hostName)
 		e.h.Feat = rm.Features{
 			TagDelete:    sys.TagDelete,
@@ -90,11 +147,17 @@ func setup(sys Sys) (*env, error) {
 			e.h.Feat.ReferrersFilter = sys.ServerFilter
 		}
 		r := e.h.Repo(repoName)
+		ar := e.h.Repo(e.artRepo())
 		for _, b := range blobs {
 			r.Blobs[rm.Digest("sha256", b)] = b
+			ar.Blobs[rm.Digest("sha256", b)] = b
 		}
 		r.Manifests[baseDigest] = &rm.Manifest{MediaType: rm.MTOCIManifest, Body: baseManifest}
+		r.Manifests[armDigest] = &rm.Manifest{MediaType: rm.MTOCIManifest, Body: armManifest}
+		r.Manifests[multiDigest] = &rm.Manifest{MediaType: rm.MTOCIIndex, Body: multiIndex}
 		r.Tags[baseTag] = baseDigest
+		r.Tags[latestTag] = baseDigest
+		r.Tags[multiTag] = multiDigest
 	}
 	e.main = e.newClient(true)
 	return e, nil
@@ -119,25 +182,45 @@ func (e *env) newClient(underTest bool) *regclient.RegClient {
 			n = 1
 		}
 		// the timeout is beyond any case's run time (watchdog 120 s); an expiry would only turn a cache hit into a
-		// miss, which a correct client answers identically, so it cannot create a false alarm
-		conf.RegOpts = []reg.Opts{reg.WithCache(3*time.Minute, n)}
+		// miss, which a correct client answers identically, so it cannot create a false alarm (the same argument
+		// makes the 1ms variant sound: whichever entries have expired, the answers must be right)
+		to := 3 * time.Minute
+		if e.sys.CacheShort {
+			to = time.Millisecond
+		}
+		conf.RegOpts = append(conf.RegOpts, reg.WithCache(to, n))
+	}
+	if e.sys.LinkAbs {
+		conf.RegOpts = append(conf.RegOpts, reg.WithHTTPClient(&http.Client{Transport: linkAbs{e.m}}))
+	}
+	if underTest && e.sys.ReqConcurrent > 0 {
+		h := *config.HostNewName(hostName)
+		h.ReqConcurrent = int64(e.sys.ReqConcurrent)
+		conf.Hosts = []config.Host{h}
 	}
 	return rcutil.New(e.m, conf)
 }
 
-func (e *env) refTag(tag string) (ref.Ref, error) {
+// refName builds a reference in the subjects' repository (art=false) or in the artifacts' repository (art=true);
+// suffix is ":tag", "@digest", ":tag@digest" or "" (default tag).
+func (e *env) refName(art bool, suffix string) (ref.Ref, error) {
 	if e.isReg() {
-		return ref.New(hostName + "/" + repoName + ":" + tag)
+		repo := repoName
+		if art {
+			repo = e.artRepo()
+		}
+		return ref.New(hostName + "/" + repo + suffix)
 	}
-	return ref.New("ocidir://" + e.dir + ":" + tag)
+	dir := e.dir
+	if art {
+		dir = e.artDir
+	}
+	return ref.New("ocidir://" + dir + suffix)
 }
 
-func (e *env) refDigest(d string) (ref.Ref, error) {
-	if e.isReg() {
-		return ref.New(hostName + "/" + repoName + "@" + d)
-	}
-	return ref.New("ocidir://" + e.dir + "@" + d)
-}
+// refTag / refDigest address artifacts (pushes, deletes).
+func (e *env) refTag(tag string) (ref.Ref, error)  { return e.refName(true, ":"+tag) }
+func (e *env) refDigest(d string) (ref.Ref, error) { return e.refName(true, "@"+d) }
 
 // raw is a consistent snapshot of what the oracle needs from raw storage.
 type rawEntry struct {
@@ -159,9 +242,9 @@ type rawState struct {
 
 func (e *env) view() audit.View {
 	if e.isReg() {
-		return audit.RepoView{R: e.h.Repos[repoName]}
+		return audit.RepoView{R: e.h.Repos[e.artRepo()]}
 	}
-	return audit.OpenLayout(e.dir)
+	return audit.OpenLayout(e.artDir)
 }
 
 // snapshot reads raw storage (model maps under the model lock, or plain files).
@@ -224,7 +307,7 @@ func (e *env) repairFallback(u *universe) {
 	}
 	e.m.Lock()
 	defer e.m.Unlock()
-	r := e.h.Repo(repoName)
+	r := e.h.Repo(e.artRepo())
 	for _, s := range u.subjects {
 		for _, t := range sortedTags(r) {
 			if fallbackTagMatches(t, s) {
